@@ -287,7 +287,7 @@ def judge(case):
 
 
 def _judge_sp(case, res):
-    grids, shapes = case['grids'], case['shapes']
+    grids, shapes = case['grids'], [tuple(x) for x in case['shapes']]
     cells = {}
     refs = []
     vals = []
